@@ -23,9 +23,20 @@
 (*          TRUE -> peek wakers[s]; Some (same waker) -> Pending;           *)
 (*          None -> lock, insert, unlock, wake the inserted waker, Pending  *)
 (*   cancel_all: for every stream id: keep[id] := FALSE; wake_stream(id)    *)
+(*   close  (gracefully_end_all_streams(ZERO) = end_all_streams, then the   *)
+(*          caller asks is_channel_open and running_streams_count):         *)
+(*          flush: pending := tail.load - head.load; > 0 -> wake every      *)
+(*          stream, sleep 1 ms, again;  = 0 -> cancel_all_streams; then     *)
+(*          while used_streams_count.load > 0: sleep 1 ms                   *)
+(*   drop   (MutinyStream::drop -> report_stream_dropped): wakers[s] :=     *)
+(*          None under wakers_lock; finished += 1; used_streams_count -= 1; *)
+(*          the id goes back into the vacant queue (under its guard); the   *)
+(*          used-streams list is rebuilt entry by entry under streams_lock  *)
 (* Properties: C01 (nothing lost / invented), C02 (the LinQueue monitor of  *)
 (* RingAtomic, now over the channel's call / return window), C04 (no lost   *)
-(* wake-up, safety form), C07 (cancelled streams end).                      *)
+(* wake-up, safety form), C07 (cancelled streams end), C06 (close returns   *)
+(* only after every event accepted before it was yielded and every stream   *)
+(* is gone; afterwards the channel is not open).                            *)
 (***************************************************************************)
 EXTENDS RingAtomic
 
@@ -40,16 +51,33 @@ VARIABLES cpc,      \* per thread: where it is in the channel layer
           wlock,    \* wakers_lock
           keep,     \* keep_streams_running
           notified, \* per stream: the task's sticky notification
-          stats     \* ghost counters
+          stats,    \* ghost counters
+          count,    \* used_streams_count (= running_streams_count())
+          vac,      \* vacant_streams: the queue of free stream ids
+          vlock,    \* ... and its concurrency_guard
+          slock,    \* streams_lock
+          used,     \* used_streams: the list of live ids, MAX-terminated
+          finished, \* finished_streams_count
+          cx        \* per thread: registers of close / drop (sampled tail, list being written, continuation, ghost samples)
 
-cvars == <<cpc, cs, cres, waker, wlock, keep, notified, stats>>
+smv == <<count, vac, vlock, slock, used, finished, cx>>
+cvars == <<cpc, cs, cres, waker, wlock, keep, notified, stats, smv>>
 uvars == <<vars, cvars>>
+
+MAX == 99                      \* the u32::MAX sentinel of the used-streams list
+NoCx == [t |-> 0, k |-> 0, tgt |-> [j \in Streams |-> MAX], kont |-> "", accAt |-> 0, left |-> 0, open |-> FALSE, run |-> 0]
+RECURSIVE SortedSeq(_)
+SortedSeq(set) == IF set = {} THEN <<>> ELSE LET m == CHOOSE x \in set : \A y \in set : x <= y IN <<m>> \o SortedSeq(set \ {m})
+ListOf(live) == LET ls == SortedSeq(live) IN [i \in Streams |-> IF i + 1 <= Len(ls) THEN ls[i + 1] ELSE MAX]
+Elems(q) == {q[i] : i \in 1..Len(q)}
 
 CInit == /\ cpc = [p \in Procs |-> "idle"] /\ cs = [p \in Procs |-> 0] /\ cres = [p \in Procs |-> ""]
          /\ waker = [s \in Streams |-> FALSE] /\ wlock = FALSE /\ keep = [s \in Streams |-> TRUE]
          /\ notified = [s \in Streams |-> FALSE]
          /\ stats = [acc |-> 0, rej |-> 0, del |-> 0]
-UInit == Init /\ CInit
+SInit == /\ count = MaxS /\ vac = <<>> /\ vlock = FALSE /\ slock = FALSE /\ used = [j \in Streams |-> j] /\ finished = 0
+         /\ cx = [p \in Procs |-> NoCx]
+UInit == Init /\ CInit /\ SInit
 
 \* the ring's operation steps (everything of RingAtomic!Step but the return)
 RStep(p) == \/ EnqFA(p) \/ EnqLoadHead(p) \/ EnqRecedeOk(p) \/ EnqRecedeFail(p) \/ EnqPublish(p)
@@ -62,11 +90,11 @@ Wake(s, nf) == [nf EXCEPT ![s] = TRUE]
 CallSend(p, v) == /\ cpc[p] = "idle"
                   /\ Call(p, [op |-> "enq", v |-> v, i |-> 0])
                   /\ cpc' = [cpc EXCEPT ![p] = "send"] /\ cres' = [cres EXCEPT ![p] = ""]
-                  /\ UNCHANGED <<cs, waker, wlock, keep, notified, stats>>
+                  /\ UNCHANGED <<cs, waker, wlock, keep, notified, stats, smv>>
 CallPoll(p, s) == /\ cpc[p] = "idle"
                   /\ Call(p, [op |-> "deq", v |-> 0, i |-> 0])
                   /\ cpc' = [cpc EXCEPT ![p] = "poll"] /\ cs' = [cs EXCEPT ![p] = s] /\ cres' = [cres EXCEPT ![p] = ""]
-                  /\ UNCHANGED <<waker, wlock, keep, notified, stats>>
+                  /\ UNCHANGED <<waker, wlock, keep, notified, stats, smv>>
 
 \* which stream a successful send wakes (the "+1 workaround" of the atomic channel included); -1: nobody
 WakeTarget(la) == IF la <= MaxS THEN la - 1 ELSE IF la = MaxS + 1 THEN la - 2 ELSE -1
@@ -90,7 +118,7 @@ ChanRing(p) ==
             ELSE IF cpc[p] = "poll2"
             THEN cres' = [cres EXCEPT ![p] = "end"] /\ cpc' = [cpc EXCEPT ![p] = "cret"] /\ UNCHANGED cs        \* nothing again: end of stream
             ELSE cpc' = [cpc EXCEPT ![p] = "K1"] /\ UNCHANGED <<cs, cres>>
-    /\ UNCHANGED <<waker, wlock, keep, notified, stats>>
+    /\ UNCHANGED <<waker, wlock, keep, notified, stats, smv>>
 
 -----------------------------------------------------------------------------
 \* wake_stream(cs[p])
@@ -99,18 +127,18 @@ WakePeek(p) ==      \* yield "sm.wake.peek"; the unsynchronised read of wakers[s
     /\ IF waker[cs[p]]
        THEN notified' = Wake(cs[p], notified) /\ cpc' = [cpc EXCEPT ![p] = "cret"]
        ELSE UNCHANGED notified /\ cpc' = [cpc EXCEPT ![p] = "W2"]
-    /\ UNCHANGED <<vars, cs, cres, waker, wlock, keep, stats>>
+    /\ UNCHANGED <<vars, cs, cres, waker, wlock, keep, stats, smv>>
 WakeLock(p) ==      \* wakers_lock CAS (spins while taken); second look at wakers[s] under the lock
     /\ cpc[p] = "W2" /\ ~wlock
     /\ wlock' = TRUE
     /\ notified' = IF waker[cs[p]] THEN Wake(cs[p], notified) ELSE notified
     /\ cpc' = [cpc EXCEPT ![p] = "W3"]
-    /\ UNCHANGED <<vars, cs, cres, waker, keep, stats>>
+    /\ UNCHANGED <<vars, cs, cres, waker, keep, stats, smv>>
 WakeUnlock(p) ==    \* wakers_lock store(false)
     /\ cpc[p] = "W3"
     /\ wlock' = FALSE
     /\ cpc' = [cpc EXCEPT ![p] = "cret"]
-    /\ UNCHANGED <<vars, cs, cres, waker, keep, notified, stats>>
+    /\ UNCHANGED <<vars, cs, cres, waker, keep, notified, stats, smv>>
 
 -----------------------------------------------------------------------------
 \* the rest of poll_next after an empty consume
@@ -130,58 +158,180 @@ KeepRead(p) ==      \* yield "sm.keep.read"; told to end -> consume once more be
     /\ IF keep[cs[p]]
        THEN cpc' = [cpc EXCEPT ![p] = "R1"] /\ UNCHANGED vars
        ELSE cpc' = [cpc EXCEPT ![p] = "poll2"] /\ ReDeq(p)
-    /\ UNCHANGED <<cs, cres, waker, wlock, keep, notified, stats>>
+    /\ UNCHANGED <<cs, cres, waker, wlock, keep, notified, stats, smv>>
 WakerPeek(p) ==     \* yield "sm.waker.peek": already registered (the task always presents the same waker) -> nothing to do
     /\ cpc[p] = "R1"
     /\ IF waker[cs[p]]
        THEN cpc' = [cpc EXCEPT ![p] = "cret"] /\ cres' = [cres EXCEPT ![p] = "pending"]
        ELSE cpc' = [cpc EXCEPT ![p] = "R2"] /\ UNCHANGED cres
-    /\ UNCHANGED <<vars, cs, waker, wlock, keep, notified, stats>>
+    /\ UNCHANGED <<vars, cs, waker, wlock, keep, notified, stats, smv>>
 WakerLock(p) ==     \* wakers_lock CAS; insert the waker
     /\ cpc[p] = "R2" /\ ~wlock
     /\ wlock' = TRUE /\ waker' = [waker EXCEPT ![cs[p]] = TRUE]
     /\ cpc' = [cpc EXCEPT ![p] = "R3"]
-    /\ UNCHANGED <<vars, cs, cres, keep, notified, stats>>
+    /\ UNCHANGED <<vars, cs, cres, keep, notified, stats, smv>>
 WakerUnlock(p) ==   \* wakers_lock store(false); then the inserted waker is woken once (the self-wake)
     /\ cpc[p] = "R3"
     /\ wlock' = FALSE /\ notified' = Wake(cs[p], notified)
     /\ cpc' = [cpc EXCEPT ![p] = "cret"] /\ cres' = [cres EXCEPT ![p] = "pending"]
-    /\ UNCHANGED <<vars, cs, waker, keep, stats>>
+    /\ UNCHANGED <<vars, cs, waker, keep, stats, smv>>
 
 -----------------------------------------------------------------------------
 \* cancel_all_streams: for every id: yield "sm.used.read"; yield "sm.keep.clear"; keep[id] := FALSE; wake_stream(id)
 CallCancel(p) == /\ cpc[p] = "idle"
                  /\ cpc' = [cpc EXCEPT ![p] = "X1"] /\ cs' = [cs EXCEPT ![p] = 0] /\ cres' = [cres EXCEPT ![p] = ""]
-                 /\ UNCHANGED <<vars, waker, wlock, keep, notified, stats>>
+                 /\ UNCHANGED <<vars, waker, wlock, keep, notified, stats, smv>>
 CancelNext(p) ==    \* "sm.used.read"
     /\ cpc[p] = "X1"
     /\ cpc' = [cpc EXCEPT ![p] = "X2"]
-    /\ UNCHANGED <<vars, cs, cres, waker, wlock, keep, notified, stats>>
+    /\ UNCHANGED <<vars, cs, cres, waker, wlock, keep, notified, stats, smv>>
 CancelClear(p) ==   \* "sm.keep.clear": the flag is written after the yield, then wake_stream begins
     /\ cpc[p] = "X2"
     /\ keep' = [keep EXCEPT ![cs[p]] = FALSE]
     /\ cpc' = [cpc EXCEPT ![p] = "XW1"]
-    /\ UNCHANGED <<vars, cs, cres, waker, wlock, notified, stats>>
+    /\ UNCHANGED <<vars, cs, cres, waker, wlock, notified, stats, smv>>
 \* wake_stream inside cancel: same three steps, then on to the next id
-XAfterWake(p) == IF cs[p] + 1 \in Streams THEN <<"X1", cs[p] + 1>> ELSE <<"cret", cs[p]>>
+XAfterWake(p) == IF cs[p] + 1 \in Streams THEN <<"X1", cs[p] + 1>>
+                 ELSE IF cx[p].kont = "close" THEN <<"Q1", cs[p]>>        \* end_all_streams goes on to wait for the streams to be gone
+                 ELSE <<"cret", cs[p]>>
 CancelWakePeek(p) ==
     /\ cpc[p] = "XW1"
     /\ IF waker[cs[p]]
        THEN /\ notified' = Wake(cs[p], notified)
             /\ cpc' = [cpc EXCEPT ![p] = XAfterWake(p)[1]] /\ cs' = [cs EXCEPT ![p] = XAfterWake(p)[2]]
        ELSE UNCHANGED <<notified, cs>> /\ cpc' = [cpc EXCEPT ![p] = "XW2"]
-    /\ UNCHANGED <<vars, cres, waker, wlock, keep, stats>>
+    /\ UNCHANGED <<vars, cres, waker, wlock, keep, stats, smv>>
 CancelWakeLock(p) ==
     /\ cpc[p] = "XW2" /\ ~wlock
     /\ wlock' = TRUE
     /\ notified' = IF waker[cs[p]] THEN Wake(cs[p], notified) ELSE notified
     /\ cpc' = [cpc EXCEPT ![p] = "XW3"]
-    /\ UNCHANGED <<vars, cs, cres, waker, keep, stats>>
+    /\ UNCHANGED <<vars, cs, cres, waker, keep, stats, smv>>
 CancelWakeUnlock(p) ==
     /\ cpc[p] = "XW3"
     /\ wlock' = FALSE
     /\ cpc' = [cpc EXCEPT ![p] = XAfterWake(p)[1]] /\ cs' = [cs EXCEPT ![p] = XAfterWake(p)[2]]
-    /\ UNCHANGED <<vars, cres, waker, keep, notified, stats>>
+    /\ UNCHANGED <<vars, cres, waker, keep, notified, stats, smv>>
+
+-----------------------------------------------------------------------------
+\* close: gracefully_end_all_streams(Duration::ZERO), then is_channel_open() and running_streams_count() (what the harness' `close` asks)
+SmU == <<count, vac, vlock, slock, used, finished>>
+CallClose(p) == /\ cpc[p] = "idle"
+                /\ cpc' = [cpc EXCEPT ![p] = "F1"] /\ cres' = [cres EXCEPT ![p] = ""]
+                /\ cx' = [cx EXCEPT ![p] = [NoCx EXCEPT !.kont = "close", !.accAt = stats.acc]]
+                /\ UNCHANGED <<vars, cs, waker, wlock, keep, notified, stats, SmU>>
+\* flush: pending_items_count() = available_elements_count() = tail.load - head.load
+CloseLenTail(p) ==
+    /\ cpc[p] = "F1"
+    /\ cx' = [cx EXCEPT ![p].t = tail]
+    /\ cpc' = [cpc EXCEPT ![p] = "F2"]
+    /\ UNCHANGED <<vars, cs, cres, waker, wlock, keep, notified, stats, SmU>>
+CloseLenHead(p) ==     \* something pending -> wake_all_streams begins; nothing -> flush returns 0 and cancel_all_streams begins
+    /\ cpc[p] = "F2"
+    /\ cpc' = [cpc EXCEPT ![p] = IF Sub(cx[p].t, head) > 0 THEN "FW1" ELSE "X1"]
+    /\ cs' = [cs EXCEPT ![p] = 0]
+    /\ UNCHANGED <<vars, cres, waker, wlock, keep, notified, stats, smv>>
+\* wake_all_streams: wake_stream(id) for every id, then tokio::time::sleep(1 ms)
+FAfterWake(p) == IF cs[p] + 1 \in Streams THEN <<"FW1", cs[p] + 1>> ELSE <<"Z1", cs[p]>>
+CloseWakePeek(p) ==
+    /\ cpc[p] = "FW1"
+    /\ IF waker[cs[p]]
+       THEN /\ notified' = Wake(cs[p], notified)
+            /\ cpc' = [cpc EXCEPT ![p] = FAfterWake(p)[1]] /\ cs' = [cs EXCEPT ![p] = FAfterWake(p)[2]]
+       ELSE UNCHANGED <<notified, cs>> /\ cpc' = [cpc EXCEPT ![p] = "FW2"]
+    /\ UNCHANGED <<vars, cres, waker, wlock, keep, stats, smv>>
+CloseWakeLock(p) ==
+    /\ cpc[p] = "FW2" /\ ~wlock
+    /\ wlock' = TRUE
+    /\ notified' = IF waker[cs[p]] THEN Wake(cs[p], notified) ELSE notified
+    /\ cpc' = [cpc EXCEPT ![p] = "FW3"]
+    /\ UNCHANGED <<vars, cs, cres, waker, keep, stats, smv>>
+CloseWakeUnlock(p) ==
+    /\ cpc[p] = "FW3"
+    /\ wlock' = FALSE
+    /\ cpc' = [cpc EXCEPT ![p] = FAfterWake(p)[1]] /\ cs' = [cs EXCEPT ![p] = FAfterWake(p)[2]]
+    /\ UNCHANGED <<vars, cres, waker, keep, notified, stats, smv>>
+\* the sleeps of the two polling loops are over (the thread goes on to the loop's next check)
+CloseSlept(p) ==
+    /\ cpc[p] \in {"Z1", "Z2"}
+    /\ cpc' = [cpc EXCEPT ![p] = IF cpc[p] = "Z1" THEN "F1" ELSE "Q1"]
+    /\ UNCHANGED <<vars, cs, cres, waker, wlock, keep, notified, stats, smv>>
+\* while running_streams_count() > 0 { sleep }
+CloseRunLoad(p) ==
+    /\ cpc[p] = "Q1"
+    /\ cpc' = [cpc EXCEPT ![p] = IF count > 0 THEN "Z2" ELSE "Q2"]
+    /\ UNCHANGED <<vars, cs, cres, waker, wlock, keep, notified, stats, smv>>
+CloseRunRet(p) ==      \* the value end_all_streams returns; the caller's is_channel_open() begins
+    /\ cpc[p] = "Q2"
+    /\ cx' = [cx EXCEPT ![p].left = count]
+    /\ cpc' = [cpc EXCEPT ![p] = "O1"] /\ cs' = [cs EXCEPT ![p] = 0]
+    /\ UNCHANGED <<vars, cres, waker, wlock, keep, notified, stats, SmU>>
+CloseOpenRead(p) ==    \* is_any_stream_running: [y sm.keep.read] per id until one says yes; then the caller's running_streams_count()
+    /\ cpc[p] = "O1"
+    /\ IF keep[cs[p]]
+       THEN cx' = [cx EXCEPT ![p].open = TRUE] /\ cpc' = [cpc EXCEPT ![p] = "O2"] /\ UNCHANGED cs
+       ELSE IF cs[p] + 1 \in Streams
+       THEN cs' = [cs EXCEPT ![p] = @ + 1] /\ UNCHANGED <<cpc, cx>>
+       ELSE cpc' = [cpc EXCEPT ![p] = "O2"] /\ UNCHANGED <<cs, cx>>
+    /\ UNCHANGED <<vars, cres, waker, wlock, keep, notified, stats, SmU>>
+CloseRunning(p) ==
+    /\ cpc[p] = "O2"
+    /\ cx' = [cx EXCEPT ![p].run = count]
+    /\ cpc' = [cpc EXCEPT ![p] = "cret"] /\ cres' = [cres EXCEPT ![p] = "closed"]
+    /\ UNCHANGED <<vars, cs, waker, wlock, keep, notified, stats, SmU>>
+
+-----------------------------------------------------------------------------
+\* drop of a stream: report_stream_dropped(s), then sync_vacant_and_used_streams
+CallDrop(p, s) == /\ cpc[p] = "idle"
+                  /\ cpc' = [cpc EXCEPT ![p] = "P1"] /\ cs' = [cs EXCEPT ![p] = s] /\ cres' = [cres EXCEPT ![p] = ""]
+                  /\ UNCHANGED <<vars, waker, wlock, keep, notified, stats, smv>>
+DropWLock(p) ==     \* wakers_lock CAS; wakers[s] := None
+    /\ cpc[p] = "P1" /\ ~wlock
+    /\ wlock' = TRUE /\ waker' = [waker EXCEPT ![cs[p]] = FALSE]
+    /\ cpc' = [cpc EXCEPT ![p] = "P2"]
+    /\ UNCHANGED <<vars, cs, cres, keep, notified, stats, smv>>
+DropWUnlock(p) ==
+    /\ cpc[p] = "P2"
+    /\ wlock' = FALSE
+    /\ cpc' = [cpc EXCEPT ![p] = "P3"]
+    /\ UNCHANGED <<vars, cs, cres, waker, keep, notified, stats, smv>>
+DropCountA(p) ==    \* finished_streams_count.fetch_add(1)
+    /\ cpc[p] = "P3"
+    /\ finished' = finished + 1
+    /\ cpc' = [cpc EXCEPT ![p] = "P4"]
+    /\ UNCHANGED <<vars, cs, cres, waker, wlock, keep, notified, stats, count, vac, vlock, slock, used, cx>>
+DropCountB(p) ==    \* used_streams_count.fetch_sub(1)
+    /\ cpc[p] = "P4"
+    /\ count' = count - 1
+    /\ cpc' = [cpc EXCEPT ![p] = "P5"]
+    /\ UNCHANGED <<vars, cs, cres, waker, wlock, keep, notified, stats, vac, vlock, slock, used, finished, cx>>
+DropVPush(p) ==     \* vacant_streams: concurrency_guard CAS; the id is written and the tail advanced (under the guard)
+    /\ cpc[p] = "P5" /\ ~vlock
+    /\ vlock' = TRUE /\ vac' = Append(vac, cs[p])
+    /\ cpc' = [cpc EXCEPT ![p] = "P6"]
+    /\ UNCHANGED <<vars, cs, cres, waker, wlock, keep, notified, stats, count, slock, used, finished, cx>>
+DropVUnlock(p) ==
+    /\ cpc[p] = "P6"
+    /\ vlock' = FALSE
+    /\ cpc' = [cpc EXCEPT ![p] = "Y1"]
+    /\ UNCHANGED <<vars, cs, cres, waker, wlock, keep, notified, stats, count, vac, slock, used, finished, cx>>
+SyncLock(p) ==      \* streams_lock CAS; peek_remaining (unsynchronised with the vacant queue's own guard) + sort
+    /\ cpc[p] = "Y1" /\ ~slock
+    /\ slock' = TRUE
+    /\ cx' = [cx EXCEPT ![p].tgt = ListOf(Streams \ Elems(vac)), ![p].k = 0]
+    /\ cpc' = [cpc EXCEPT ![p] = "Y2"]
+    /\ UNCHANGED <<vars, cs, cres, waker, wlock, keep, notified, stats, count, vac, vlock, used, finished>>
+SyncWrite(p) ==     \* [y sm.used.write] used[k] := target[k]
+    /\ cpc[p] = "Y2"
+    /\ used' = [used EXCEPT ![cx[p].k] = cx[p].tgt[cx[p].k]]
+    /\ cx' = [cx EXCEPT ![p].k = @ + 1]
+    /\ cpc' = [cpc EXCEPT ![p] = IF cx[p].k + 1 < MaxS THEN "Y2" ELSE "Y3"]
+    /\ UNCHANGED <<vars, cs, cres, waker, wlock, keep, notified, stats, count, vac, vlock, slock, finished>>
+SyncUnlock(p) ==    \* streams_lock store(false); the drop returns
+    /\ cpc[p] = "Y3"
+    /\ slock' = FALSE
+    /\ cpc' = [cpc EXCEPT ![p] = "cret"] /\ cres' = [cres EXCEPT ![p] = "dropped"]
+    /\ UNCHANGED <<vars, cs, waker, wlock, keep, notified, stats, count, vac, vlock, used, finished, cx>>
 
 -----------------------------------------------------------------------------
 \* return of the channel operation (and of the ring operation underneath, if any)
@@ -192,17 +342,26 @@ ChanRet(p) ==
     /\ stats' = [stats EXCEPT !.acc = IF cres[p] = "ok" THEN @ + 1 ELSE @,
                               !.rej = IF cres[p] = "full" THEN @ + 1 ELSE @,
                               !.del = IF cres[p] = "item" THEN @ + 1 ELSE @]
-    /\ UNCHANGED <<cs, cres, waker, wlock, keep, notified>>
+    /\ UNCHANGED <<cs, cres, waker, wlock, keep, notified, smv>>
 
 ChanStep(p) == \/ ChanRing(p)
                \/ WakePeek(p) \/ WakeLock(p) \/ WakeUnlock(p)
                \/ KeepRead(p) \/ WakerPeek(p) \/ WakerLock(p) \/ WakerUnlock(p)
                \/ CancelNext(p) \/ CancelClear(p) \/ CancelWakePeek(p) \/ CancelWakeLock(p) \/ CancelWakeUnlock(p)
+               \/ CloseLenTail(p) \/ CloseLenHead(p) \/ CloseWakePeek(p) \/ CloseWakeLock(p) \/ CloseWakeUnlock(p)
+               \/ CloseRunLoad(p) \/ CloseRunRet(p) \/ CloseOpenRead(p) \/ CloseRunning(p)
+               \/ DropWLock(p) \/ DropWUnlock(p) \/ DropCountA(p) \/ DropCountB(p) \/ DropVPush(p) \/ DropVUnlock(p)
+               \/ SyncLock(p) \/ SyncWrite(p) \/ SyncUnlock(p)
 
 -----------------------------------------------------------------------------
 Queued == Sub(tail, head)
 InvChanTypes == /\ wlock \in BOOLEAN /\ \A s \in Streams : waker[s] \in BOOLEAN /\ keep[s] \in BOOLEAN /\ notified[s] \in BOOLEAN
                 /\ stats.del <= stats.acc + Cardinality({p \in Procs : cpc[p] \in {"send", "W1", "W2", "W3", "cret"}})
 \* the lock is only ever held by a thread between its lock and unlock steps
-InvWakersLock == wlock <=> (\E p \in Procs : cpc[p] \in {"W3", "R3", "XW3"})
+InvWakersLock == wlock <=> (\E p \in Procs : cpc[p] \in {"W3", "R3", "XW3", "FW3", "P2"})
+InvSmLocks == /\ vlock <=> (\E p \in Procs : cpc[p] = "P6")
+              /\ slock <=> (\E p \in Procs : cpc[p] \in {"Y2", "Y3"})
+\* the running-streams counter and the list agree with the vacant queue whenever no drop is in progress (C10's bookkeeping, Uni side)
+Dropping == \E p \in Procs : cpc[p] \in {"P1", "P2", "P3", "P4", "P5", "P6", "Y1", "Y2", "Y3"}
+InvRunningCount == ~Dropping => (count = MaxS - Len(vac) /\ finished = Len(vac) /\ used = ListOf(Streams \ Elems(vac)))
 =============================================================================
